@@ -6,6 +6,9 @@ import (
 	"go/token"
 	"go/types"
 	"sort"
+	"sync"
+
+	"golang.org/x/tools/go/ssa"
 )
 
 // nilModel is the nilability summary of the recursive-descent parser: which
@@ -23,6 +26,8 @@ type nilModel struct {
 	validators map[*types.Func]bool // func(x) bool that returns true only if x != nil
 	funcs      []*FuncInfo          // parser methods + closures are handled inline
 	fieldWhy   map[*types.Var]string
+	pathsMu    sync.Mutex
+	pathsMemo  map[*ssa.Function]*nilPathsOf
 }
 
 func isASTRef(t types.Type) bool {
@@ -814,6 +819,9 @@ func (nm *nilModel) fieldSummary() bool {
 						nonNil = nm.definitelyAssigned(f, holder, holderStmt, fld)
 					}
 					if !nonNil {
+						nonNil = nm.assignedOnPaths(f, t, fld)
+					}
+					if !nonNil {
 						mark(nm.fieldNil, fld, fmt.Sprintf("not assigned a non-nil value on every success path of %s", f.Name()))
 					}
 				}
@@ -1214,4 +1222,156 @@ func (nm *nilModel) fromPratt(f *FuncInfo, e ast.Expr, depth int) bool {
 		return nm.fromPratt(f, def, depth+1)
 	}
 	return false
+}
+
+// ---- definite assignment on paths ---------------------------------------------------
+
+type nilPathsOf struct {
+	paths []*pwPath
+	ok    bool
+}
+
+// ctorPaths: the paths of a parse function with its small helpers walked in line (those that take
+// or yield nodes or functions: a helper that parses "(condition) { block }" for two callers, a
+// validator passed as a function value), loops taken zero times and once.
+func (nm *nilModel) ctorPaths(fn *ssa.Function) *nilPathsOf {
+	nm.pathsMu.Lock()
+	defer nm.pathsMu.Unlock()
+	if nm.pathsMemo == nil {
+		nm.pathsMemo = map[*ssa.Function]*nilPathsOf{}
+	}
+	if v, ok := nm.pathsMemo[fn]; ok {
+		return v
+	}
+	w := nm.w
+	pm := nm.pm
+	skip := map[*ssa.Function]bool{}
+	for _, f := range []*FuncInfo{pm.advance, pm.expectPeek, pm.curIs, pm.peekIs, pm.pratt, pm.blockParse, pm.stmtParse} {
+		if f != nil {
+			if s := w.SSAFunc(f); s != nil {
+				skip[s] = true
+			}
+		}
+	}
+	relevant := func(sig *types.Signature) bool {
+		for _, tup := range []*types.Tuple{sig.Params(), sig.Results()} {
+			for i := 0; i < tup.Len(); i++ {
+				t := tup.At(i).Type()
+				if isASTRef(t) {
+					return true
+				}
+				if _, isFn := t.Underlying().(*types.Signature); isFn {
+					return true
+				}
+			}
+		}
+		return false
+	}
+	pw := &pathWalker{unroll1: true, maxPaths: 4000, inline: func(caller, callee *ssa.Function) bool {
+		if pkgOf(callee) != pkgOf(fn) || skip[callee] || funcHasLoop(callee) {
+			return false
+		}
+		// registered parse functions are summarised (may return nil or not), not walked
+		if o, ok := fnObject(callee).(*types.Func); ok {
+			for _, reg := range pm.regs {
+				if reg.Fn != nil && reg.Fn.Obj == o {
+					return false
+				}
+			}
+		}
+		return relevant(callee.Signature)
+	}}
+	pw.walk(fn)
+	res := &nilPathsOf{paths: pw.paths, ok: !pw.overflow && len(pw.paths) > 0}
+	nm.pathsMemo[fn] = res
+	return res
+}
+
+// nonNilOnPath: the value is known not to be nil where the path ends.
+func (nm *nilModel) nonNilOnPath(p *pwPath, v ssa.Value) bool {
+	v = p.resolve(v)
+	if p.knownNonNil(v) {
+		return true
+	}
+	if c, ok := v.(*ssa.Call); ok {
+		if cal := c.Call.StaticCallee(); cal != nil && inModule(cal) {
+			if o, ok := fnObject(cal).(*types.Func); ok && nm.w.FuncOf(o) != nil && !nm.fnMayNil[o] && cal.Signature.Results().Len() == 1 {
+				return true
+			}
+		}
+	}
+	// a validator said yes: `if !valid(v) { fail }` was passed
+	for _, d := range p.decisions {
+		c, ok := d.cond.(*ssa.Call)
+		if !ok || !d.truth || len(c.Call.Args) == 0 {
+			continue
+		}
+		cal := c.Call.StaticCallee()
+		if cal == nil {
+			continue
+		}
+		if o, ok := fnObject(cal).(*types.Func); ok && nm.validators[o] {
+			a := p.resolve(c.Call.Args[len(c.Call.Args)-1])
+			if a == v || p.resolve(stripIface(a)) == v {
+				return true
+			}
+		}
+	}
+	return false
+}
+
+// assignedOnPaths: on every path of f that returns the node it built (of the struct type st), the
+// last value stored into the field is known not to be nil.
+func (nm *nilModel) assignedOnPaths(f *FuncInfo, st types.Type, fld *types.Var) bool {
+	w := nm.w
+	fn := w.SSAFunc(f)
+	str, ok := st.Underlying().(*types.Struct)
+	if fn == nil || !ok {
+		return false
+	}
+	idx := fieldIndex(str, fld)
+	if idx < 0 {
+		return false
+	}
+	var alloc *ssa.Alloc
+	n := 0
+	for _, b := range fn.Blocks {
+		for _, ins := range b.Instrs {
+			if a, ok := ins.(*ssa.Alloc); ok {
+				if pt, ok := a.Type().(*types.Pointer); ok && types.Identical(pt.Elem(), st) {
+					alloc = a
+					n++
+				}
+			}
+		}
+	}
+	if n != 1 {
+		return false
+	}
+	cp := nm.ctorPaths(fn)
+	if !cp.ok {
+		return false
+	}
+	nRet := 0
+	for _, p := range cp.paths {
+		if p.end == "panic" {
+			continue
+		}
+		if p.end != "return" || len(p.results) != 1 {
+			return false
+		}
+		res := p.resolve(stripIface(p.resolve(p.results[0])))
+		if res != ssa.Value(alloc) {
+			if isNilConst(res) || isNilConst(p.resolve(p.results[0])) {
+				continue // a failure return
+			}
+			return false
+		}
+		nRet++
+		v, ok := p.fieldOfObj(alloc, idx)
+		if !ok || !nm.nonNilOnPath(p, v) {
+			return false
+		}
+	}
+	return nRet > 0
 }
